@@ -326,10 +326,11 @@ def handlePost (t : Table) (sid : Nat) (fields : List (Bytes × Bytes)) : Nat ×
   | some form => routeBody t sid form
 
 /-- the whole request `POST /scxml/<seg>` with an `application/x-www-form-urlencoded` body.
-    A segment that is not a `u32` fails the parameter guard: the request is forwarded and, no
-    other route matching, answered 422 by rocket 0.5 (status carried by the forward). -/
+    rocket percent-decodes the path segment before `u32::from_param`.  A segment that is not a
+    `u32` fails the parameter guard: the request is forwarded and, no other route matching,
+    answered 422 by rocket 0.5 (status carried by the forward). -/
 def receive (t : Table) (seg body : Bytes) : Nat × Table :=
-  match parseSid seg with
+  match parseSid (pctDecode seg) with
   | none => (422, t)
   | some sid => handlePost t sid (formDecode body)
 
